@@ -8,37 +8,36 @@ structure Inv (s : State) : Prop where
   /-- a fiber whose thread function has returned never runs again -/
   fin_done : ∀ k, s.fin k = true → s.pc k = .done
 
-theorem inv_init (fx : Bool) (n : Nat) : Inv (init fx n) := by
+theorem inv_init (n : Nat) : Inv (init n) := by
   constructor <;> simp [init]
 
 theorem inv_step {s l s'} (hi : Inv s) (hs : Step s l s') : Inv s' := by
   cases hi
   cases hs <;> constructor <;> (try simp only [doCopy] at *) <;> grind [upd_apply]
 
-theorem inv_reachable {fx n s} (h : Reachable fx n s) : Inv s := by
+theorem inv_reachable {n s} (h : Reachable n s) : Inv s := by
   induction h with
-  | init => exact inv_init fx n
+  | init => exact inv_init n
   | step _ hs ih => exact inv_step ih hs
 
-/-- repaired thread-local pointers: the defaults stay null, a fiber's `q` slot holds what it last assigned to `q`
+/-- thread-local pointers: the defaults stay null, a fiber's `q` slot holds what it last assigned to `q`
     (by pointer or by copy from `p`) -/
-structure InvF (s : State) : Prop where
-  hfx : s.fixed = true
+structure TlsInv (s : State) : Prop where
   def0 : s.def0 = none
   def1 : s.def1 = none
   q_own : ∀ f v, s.lastQ f = some v → s.slot1 f = v
   q_none : ∀ f, s.lastQ f = none → s.slot1 f = none
 
-theorem invF_init (n : Nat) : InvF (init true n) := by
+theorem tls_inv_init (n : Nat) : TlsInv (init n) := by
   constructor <;> simp [init]
 
-theorem invF_step {s l s'} (hi : InvF s) (hs : Step s l s') : InvF s' := by
+theorem tls_inv_step {s l s'} (hi : TlsInv s) (hs : Step s l s') : TlsInv s' := by
   cases hi
   cases hs <;> constructor <;> (try simp only [doCopy] at *) <;> grind [upd_apply, read0, read1]
 
-theorem invF_reachable {n s} (h : Reachable true n s) : InvF s := by
+theorem tls_inv_reachable {n s} (h : Reachable n s) : TlsInv s := by
   induction h with
-  | init => exact invF_init n
-  | step _ hs ih => exact invF_step ih hs
+  | init => exact tls_inv_init n
+  | step _ hs ih => exact tls_inv_step ih hs
 
 end Yaclib.FiberSync.Th
